@@ -6,6 +6,7 @@ import (
 	"encoding/json"
 	"expvar"
 	"fmt"
+	"io"
 	"os"
 	"os/exec"
 	"path/filepath"
@@ -802,6 +803,10 @@ func c14Hammer(st *c14State, shared [][]probe.Obj, G, procs, iters int, tag stri
 
 // C14Sig prints the signature of one ParseVector call made as the FIRST call of a fresh process.
 func C14Sig(ver int, hexInput string) {
+	if hexInput == "-" {
+		raw, _ := io.ReadAll(os.Stdin)
+		hexInput = strings.TrimSpace(string(raw))
+	}
 	b, err := hex.DecodeString(hexInput)
 	if err != nil {
 		Broken("C14sig: %v", err)
@@ -820,7 +825,9 @@ func c14FreshProcess(st *c14State, inputs []c14Input) {
 		go func(in *c14Input) {
 			defer wg.Done()
 			defer func() { <-sem }()
-			out, err := exec.Command(os.Args[0], "C14sig", fmt.Sprint(in.ver), hex.EncodeToString([]byte(in.s))).Output()
+			cmd := exec.Command(os.Args[0], "C14sig", fmt.Sprint(in.ver), "-")
+			cmd.Stdin = strings.NewReader(hex.EncodeToString([]byte(in.s))) // not argv: inputs may exceed the kernel's per-argument limit
+			out, err := cmd.Output()
 			got := string(out)
 			if err != nil || !strings.HasPrefix(got, "C14SIG ") {
 				st.mismatch(Violation{Kind: "process-died-in-fresh-process-call", Version: spec.Versions[in.ver].Name, Steps: parseSteps(in.s), Expected: in.base, Observed: fmt.Sprint(err, " ", got)})
@@ -1084,7 +1091,7 @@ func C14Ages(tier string, seed int64) {
 			}
 			st.events.Add(2)
 		}
-		res.Configs = append(res.Configs, fmt.Sprintf("woke at process age %.1fs after %.1fs idle", age.Seconds(), (age - last).Seconds()))
+		res.Configs = append(res.Configs, fmt.Sprintf("woke at process age %.1fs after %.1fs idle", age.Seconds(), (age-last).Seconds()))
 		last = time.Since(start)
 	}
 	res.Events = st.events.Load()
